@@ -13,9 +13,12 @@ pub proof fn thm_C13_complete(pk: CL03PublicKey, p: int, q: int, a: Seq<Integer>
     ensures
         cl_equation(pk, sig, a, m),
         cl_e_in_range(sig.e@, le),
+        // v is a unit modulo N: the hypothesis under which a proof of knowledge of this signature is complete (C15.proof_gen.complete / wf)
+        invertible(sig.v@, pk.N@),
 {
     let base = attr_prod(a, m, pk.N@, m.len() as int) * pow_mod(pk.b@, sig.s@, pk.N@) * pk.c@;
     ax_euler_rsa(base, sig.e@, p, q);
+    ax_gcd_pow_mod(base, inv_mod(sig.e@, (p - 1) * (q - 1)), pk.N@);
 }
 
 
